@@ -1,0 +1,77 @@
+//! Verification hooks (feature `verif-hooks`): an event recorder, fault/schedule
+//! injectors and re-exports of internal units for conformance harnesses.
+//! Nothing here runs unless a harness arms it.
+
+use std::sync::Mutex;
+use std::sync::atomic::{AtomicBool, AtomicI64, AtomicU64, Ordering};
+
+/// Recording switch: hook sites emit events only while this is set.
+pub static ARMED: AtomicBool = AtomicBool::new(false);
+/// Global sequence number, incremented under the log mutex.
+pub static GSEQ: AtomicU64 = AtomicU64::new(0);
+static LOG: Mutex<Vec<String>> = Mutex::new(Vec::new());
+
+#[inline]
+pub fn armed() -> bool {
+    ARMED.load(Ordering::Relaxed)
+}
+
+pub fn arm(on: bool) {
+    ARMED.store(on, Ordering::SeqCst);
+}
+
+/// Append one event (a JSON object without the leading `{`, e.g. `"ev":"x","a":1}`).
+/// The global sequence number is assigned under the log mutex.
+#[inline]
+pub fn emit(f: impl FnOnce() -> String) {
+    if armed() {
+        let body = f();
+        let mut log = LOG.lock().unwrap_or_else(|e| e.into_inner());
+        let seq = GSEQ.fetch_add(1, Ordering::Relaxed);
+        log.push(format!("{{\"seq\":{},{}", seq, body));
+    }
+}
+
+pub fn drain() -> Vec<String> {
+    let mut log = LOG.lock().unwrap_or_else(|e| e.into_inner());
+    std::mem::take(&mut *log)
+}
+
+/// Request an interrupt exactly as the ctrl-c handler does.
+pub fn raise_interrupt() {
+    crate::machine::INTERRUPT.store(true, Ordering::Relaxed);
+}
+
+/// Generic countdown used by injectors: fires once when it goes from 1 to 0.
+pub struct Countdown(AtomicI64);
+
+impl Countdown {
+    pub const fn new() -> Self {
+        Countdown(AtomicI64::new(-1))
+    }
+    /// Arm to fire on the n-th (1-based) tick; n <= 0 disarms.
+    pub fn set(&self, n: i64) {
+        self.0.store(if n <= 0 { -1 } else { n }, Ordering::SeqCst);
+    }
+    pub fn get(&self) -> i64 {
+        self.0.load(Ordering::SeqCst)
+    }
+    #[inline]
+    pub fn tick(&self) -> bool {
+        let v = self.0.load(Ordering::Relaxed);
+        if v < 0 {
+            return false;
+        }
+        if v == 0 {
+            return false;
+        }
+        self.0.store(v - 1, Ordering::Relaxed);
+        v == 1
+    }
+}
+
+impl Default for Countdown {
+    fn default() -> Self {
+        Self::new()
+    }
+}
